@@ -293,9 +293,11 @@ void body(const Json& prog, const std::string& root) {
             while (!g_nodes[id].dir) id = g_nodes[id].parent;
             int id2 = (int)((op.get("node", 0) / 7) % (int64_t)g_nodes.size());
             while (!g_nodes[id2].dir) id2 = g_nodes[id2].parent;
-            Path::setWorkingDirectory(Path(g_nodes[id2].abs));      // "elsewhere"
-            if (real_cwd() != g_nodes[id2].abs) sim::violation("cwd-query", "Path::setWorkingDirectory did not change the working directory");
-            f.before = g_nodes[id2].abs;
+            const std::string elsewhere = (op.get("node", 0) % 7) == 3 ? std::string("/") : g_nodes[id2].abs;   // sometimes the file-system root
+            Path::setWorkingDirectory(Path(elsewhere));
+            if (real_cwd() != elsewhere) sim::violation("cwd-query", "Path::setWorkingDirectory did not change the working directory");
+            if (Path::getWorkingDirectory().toString() != elsewhere) sim::violation("cwd-query", "Path::getWorkingDirectory() is \"" + printable(Path::getWorkingDirectory().toString()) + "\" while the process is in " + printable(elsewhere));
+            f.before = elsewhere;
             bool to_missing = (op.get("node", 0) % 5) == 0;   // sometimes the second visit goes to a directory that does not exist
             std::string target = to_missing ? spelled(id, f.before, (int)op.get("variant", 0) & 3) + "/no-such-dir" : spelled(id, f.before, (int)op.get("variant", 0));
             f.v->set(Path(target));
